@@ -76,8 +76,17 @@ package check
 //@   callsite (*Engine).checkIsAllowed requires[C02] clamp: restDepth == eff(old(restDepth), globalMaxDepth) && 1 <= restDepth && restDepth <= globalMaxDepth
 //@   ensures[C03] result-inv: res.Err != nil ==> res.Membership != checkgroup.IsMember
 
+// ---- C01: each function of the engine performs one clause of the relationship-graph
+// semantics (clauses tagged [C01] below): the sub-check it starts is the one the clause names
+// (same object / other relation, the subject set's object / the computed relation, the
+// traversal target, ...), the storage question it asks is the one the clause asks, and the
+// answer it sends is the clause's combination of the sub-answers. The fixpoint over cycles,
+// the depth/width side conditions and the schedule quantifier are not decided here.
 //@ func (*Engine).checkIsAllowed
 //@   decreases[C15] restDepth + 1, 1, 0
+//@   callsite (*Engine).checkSubjectSetRewrite requires[C01] rewrite-of-the-requested-relation: $arg2 == r && $arg3 == relation.SubjectSetRewrite
+//@   callsite (*Engine).checkDirect requires[C01] direct-check-of-the-request: $arg1 == r
+//@   callsite (*Engine).checkExpandSubject requires[C01] expansion-of-the-request: $arg1 == r
 //@   props C02 C03 C15
 //@   modifies nothing
 //@   requires wfe(e) && r != nil && ctx != nil
@@ -104,6 +113,8 @@ package check
 
 //@ func (*Engine).checkDirect$1
 //@   props C03 C15
+//@   callsite Manager.ExistsRelationTuples requires[C01] asks-for-exactly-the-relationship: $arg2 != nil && deref($arg2.Namespace) == r.Namespace && deref($arg2.Object) == r.Object && deref($arg2.Relation) == r.Relation && $arg2.Subject == r.Subject
+//@   ensures[C01] direct-answer: lastsent(resultCh).Err == nil ==> (found ==> lastsent(resultCh).Membership == checkgroup.IsMember) && (!found ==> lastsent(resultCh).Membership == checkgroup.NotMember)
 //@   like functype::checkgroup.CheckFunc
 //@   requires wfe(e) && r != nil
 //@   ensures[C03] err-propagates: faulted && !old(faulted) ==> lastsent(resultCh).Err != nil
@@ -118,6 +129,8 @@ package check
 
 //@ func (*Engine).checkExpandSubject$1
 //@   requires captured-depth: restDepth >= 1
+//@   callsite Traverser.TraverseSubjectSetExpansion requires[C01] expands-the-request: $arg2 == r
+//@   callsite (*Engine).checkIsAllowed requires[C01] next-hop-is-the-traversal-target: $arg2 == result.To && $arg4
 //@   decreases[C15] restDepth + 1, 2, 0
 //@   props C02 C03 C15
 //@   noframe
@@ -159,6 +172,10 @@ package check
 
 //@ func (*Engine).checkSubjectSetRewrite
 //@   decreases[C15] restDepth + 1, 0, astsize(rewrite)
+//@   callsite (*Engine).checkTupleToSubjectSet requires[C01] child-on-the-same-tuple: $arg1 == tuple && $arg2 == c
+//@   callsite (*Engine).checkComputedSubjectSet requires[C01] child-on-the-same-tuple: $arg2 == tuple && $arg3 == c
+//@   callsite (*Engine).checkSubjectSetRewrite requires[C01] child-on-the-same-tuple: $arg2 == tuple && $arg3 == c
+//@   callsite (*Engine).checkInverted requires[C01] child-on-the-same-tuple: $arg2 == tuple && $arg3 == c
 //@   props C02 C03 C15
 //@   modifies nothing
 //@   requires wfe(e) && tuple != nil && wfrw(rewrite) && ctx != nil
@@ -171,6 +188,8 @@ package check
 
 //@ func (*Engine).checkSubjectSetRewrite$1
 //@   requires captured-depth: restDepth >= 1
+//@   callsite Traverser.TraverseSubjectSetRewrite requires[C01] rewrites-the-request: $arg2 == tuple && $arg3 == computedSubjectSets
+//@   callsite (*Engine).checkIsAllowed requires[C01] next-hop-is-the-traversal-target: $arg2 == result.To && $arg4
 //@   decreases[C15] restDepth, 2, 0
 //@   props C03 C15
 //@   like functype::checkgroup.CheckFunc
@@ -182,6 +201,8 @@ package check
 
 //@ func (*Engine).checkSubjectSetRewrite$2
 //@   props C03 C15
+//@   requires[C01] creator-operator-of-the-rewrite: (rewrite.Operation == ast.OperatorOr ==> closureof(op, or)) && (rewrite.Operation == ast.OperatorAnd ==> closureof(op, and))
+//@   callsite functype::check.binaryOperator requires[C01] all-children-combined: $arg2 == checks
 //@   like functype::checkgroup.CheckFunc
 //@   requires op != nil
 //@   requires forall i in 0..len(checks) :: checks[i] != nil
@@ -194,6 +215,10 @@ package check
 
 //@ func (*Engine).checkInverted
 //@   decreases[C15] restDepth + 1, 0, astsize(inverted)
+//@   callsite (*Engine).checkTupleToSubjectSet requires[C01] child-on-the-same-tuple: $arg1 == tuple && istype(inverted.Child, *ast.TupleToSubjectSet) && $arg2 == as(inverted.Child, *ast.TupleToSubjectSet)
+//@   callsite (*Engine).checkComputedSubjectSet requires[C01] child-on-the-same-tuple: $arg2 == tuple && istype(inverted.Child, *ast.ComputedSubjectSet) && $arg3 == as(inverted.Child, *ast.ComputedSubjectSet)
+//@   callsite (*Engine).checkSubjectSetRewrite requires[C01] child-on-the-same-tuple: $arg2 == tuple && istype(inverted.Child, *ast.SubjectSetRewrite) && $arg3 == as(inverted.Child, *ast.SubjectSetRewrite)
+//@   callsite (*Engine).checkInverted requires[C01] child-on-the-same-tuple: $arg2 == tuple && istype(inverted.Child, *ast.InvertResult) && $arg3 == as(inverted.Child, *ast.InvertResult)
 //@   props C02 C03 C15
 //@   modifies nothing
 //@   requires wfe(e) && tuple != nil && wfinv(inverted) && ctx != nil
@@ -201,12 +226,14 @@ package check
 
 //@ func (*Engine).checkInverted$1
 //@   props C03 C15
+//@   ensures[C01] negation-step: (recvd(innerCh) == 1 && hist(innerCh, 0).Err == nil) ==> (hist(innerCh, 0).Membership == checkgroup.IsMember ==> lastsent(resultCh).Membership == checkgroup.NotMember) && (hist(innerCh, 0).Membership == checkgroup.NotMember ==> lastsent(resultCh).Membership == checkgroup.IsMember)
 //@   opt abandon-props C15
 //@   like functype::checkgroup.CheckFunc
 //@   requires check != nil
 
 //@ func (*Engine).checkComputedSubjectSet
 //@   decreases[C15] restDepth + 1, 0, 0
+//@   callsite (*Engine).checkIsAllowed requires[C01] same-object-other-relation: $arg2 != nil && $arg2.Namespace == r.Namespace && $arg2.Object == r.Object && $arg2.Relation == subjectSet.Relation && $arg2.Subject == r.Subject && !$arg4
 //@   props C02 C03 C15
 //@   modifies nothing
 //@   requires wfe(e) && r != nil && subjectSet != nil && ctx != nil
@@ -221,6 +248,8 @@ package check
 
 //@ func (*Engine).checkTupleToSubjectSet$1
 //@   requires captured-depth: restDepth >= 0
+//@   callsite Manager.GetRelationTuples requires[C01] lists-the-traversed-relation: $arg2 != nil && deref($arg2.Namespace) == tuple.Namespace && deref($arg2.Object) == tuple.Object && deref($arg2.Relation) == subjectSet.Relation && $arg2.Subject == nil
+//@   callsite (*Engine).checkIsAllowed requires[C01] computed-relation-on-the-subject-set: $arg2 != nil && $arg2.Namespace == subSet.Namespace && $arg2.Object == subSet.Object && $arg2.Relation == subjectSet.ComputedSubjectSetRelation && $arg2.Subject == tuple.Subject && !$arg4
 //@   decreases[C15] restDepth, 2, 0
 //@   props C03 C15
 //@   like functype::checkgroup.CheckFunc
